@@ -22,14 +22,14 @@ RULE = ('cases: (a) seeded scripts: 1-8 systems with start in [-6,12], frequency
         '(so end<start occurs), registered/removed at chunk boundaries during timesteps 0..~60 (identifiers also as str-subclass instances, window numbers also as numpy integers, falsy system objects, models with a quiet user logger), advanced by a random mix of '
         'execute(), execute(n<=6) and systems.execute_systems(), each replayed one step at a time on a twin model, with '
         'invalid-n probes at random states; (b) clock-warp scripts crossing sys.maxsize; (c) every (start,end,frequency) of '
-        'a box with one system over timesteps 0..T (exhaustive); (e) long runs: 900-1600 timesteps, frequencies up to 200, ends on and around 256/512/768/1024, execute(n) with n up to the whole run, long stretches without registry changes; (d) spawner scripts: a highest-priority system registers/removes '
+        'a box with one system over timesteps 0..T (exhaustive); (e) long runs: 900-1600 timesteps, frequencies up to 200, ends on and around 256/512/768/1024, execute(n) with n up to the whole run, long stretches without registry changes; (f) self-retirement scripts: systems that remove themselves with clean_up() from inside execute(), their identifier taken over later by a new object with another window; (d) spawner scripts: a highest-priority system registers/removes '
         'windowed systems in the middle of multi-step calls (the system added at t may run 0/1 times at t). Oracle per (t, system): ran exactly once iff registered and '
         'start<=t<=end and (t-start)%frequency==0. Non-trivial script: contains a window with negative start or end<start or '
         'late registration AND a multi-step call; distinct by (windows, chunking) signature.')
 ASSUMPTIONS = ['systems only log (timestep, id) in execute()', 'clock-warp cases assign SystemManager.timestep (documented attribute)',
                'bool / numpy integer n may be either rejected or treated as that many steps (the property only requires '
                'rejecting non-integers and n<1)']
-FLOORS = {'quick': {'falsy_system_objects': 715, 'decisions_ran': 5000, 'decisions_not_ran': 5000, 'multi_step_calls': 1000, 'rejected_n_value': 300,
+FLOORS = {'quick': {'ids_taken_over_after_self_retirement': 491, 'retire_cases': 133, 'falsy_system_objects': 715, 'decisions_ran': 5000, 'decisions_not_ran': 5000, 'multi_step_calls': 1000, 'rejected_n_value': 300,
                     'rejected_n_type': 300, 'windows_negative_start': 300, 'windows_end_before_start': 100,
                     'late_registrations': 300, 'warp_cases': 20, 'box_windows': 140, 'collector_windows': 500, 'long_runs': 120, 'long_run_timesteps': 100000, 'spawn_cases': 200,
                     'mid_step_registry_changes': 1000,
@@ -310,6 +310,93 @@ def case_spawn(ctx, case):
         ctx.sample({'kind': 'spawner script', 'windows': list(wins.values()), 'events': {str(k): v for k, v in script.items()}, 'chunks': chunks})
 
 
+def case_retire(ctx, case):
+    """Systems that retire THEMSELVES (clean_up() from inside their own execute()) and whose identifier is taken over afterwards by a new
+    system object with another window: the newcomer follows its own window from its registration on, whatever its predecessor did."""
+    rng = ctx.rng('retire', case['i'])
+    core, WinSystem = _fixtures()
+
+    class Retiring(WinSystem):
+        def __init__(self, id, model, log, gen, retire_at, **kw):
+            super().__init__(id, model, log, **kw)
+            self.gen, self.retire_at = gen, retire_at
+
+        def execute(self):
+            t = self.model.systems.timestep
+            self.log.append((t, f'{self.id}#g{self.gen}'))
+            if t == self.retire_at:
+                self.clean_up()
+
+    model, twin = core.Model(), core.Model()
+    log, tlog = [], []
+    total = rng.randint(30, 60)
+    plan = []          # dicts: id, gen, start, end, freq, reg (registered before timestep reg), last (last timestep it may run), how
+    for j in range(rng.randint(1, 4)):
+        t_reg = rng.randint(0, 5)
+        for gen in range(rng.randint(2, 4)):
+            if t_reg >= total - 2:
+                break
+            start = t_reg + rng.randint(-6, 4)
+            freq = rng.randint(1, 5)
+            end = sys.maxsize if rng.random() < 0.6 else t_reg + rng.randint(3, 30)
+            first_due = next((t for t in range(t_reg, total) if start <= t <= end and (t - start) % freq == 0), None)
+            if first_due is not None and rng.random() < 0.8:
+                due = [t for t in range(first_due, total) if t <= end and (t - start) % freq == 0]
+                last = rng.choice(due[:4])
+                how = 'self'
+            else:
+                last = min(total - 1, t_reg + rng.randint(0, 6))
+                how = 'outside'           # removed by the driver after timestep `last`
+            plan.append({'id': f'r{j}', 'gen': gen, 'start': start, 'end': end, 'freq': freq, 'reg': t_reg, 'last': last, 'how': how,
+                         'prio': rng.randint(-2, 2)})
+            t_reg = last + 1 + rng.choice([0, 0, 1, 2, 5])
+    regs = sorted({e['reg'] for e in plan} | {e['last'] + 1 for e in plan if e['how'] == 'outside'})
+    t, chunks = 0, []
+    while t < total:
+        for e in plan:
+            if e['how'] == 'outside' and e['last'] + 1 == t:
+                model.systems.remove_system(e['id'])
+                twin.systems.remove_system(e['id'])
+        for e in plan:
+            if e['reg'] == t:
+                kw = dict(priority=e['prio'], frequency=e['freq'], start=e['start'])
+                if e['end'] != sys.maxsize:
+                    kw['end'] = e['end']
+                ra = e['last'] if e['how'] == 'self' else None
+                model.systems.add_system(Retiring(e['id'], model, log, e['gen'], ra, **kw))
+                twin.systems.add_system(Retiring(e['id'], twin, tlog, e['gen'], ra, **kw))
+                ctx.count('late_registrations')
+                if e['gen']:
+                    ctx.count('ids_taken_over_after_self_retirement' if plan[plan.index(e) - 1]['how'] == 'self' else 'ids_taken_over_after_removal')
+        nxt = min([r for r in regs if r > t] + [total])
+        n = min(rng.choice([1, 2, 3, 5, 8]), nxt - t)
+        if n == 1:
+            model.execute()
+        else:
+            model.execute(n)
+            ctx.count('multi_step_calls')
+        for _ in range(n):
+            twin.execute()
+        chunks.append(n)
+        t += n
+        check_clocks(model, t, 'after a chunk with self-retiring systems')
+    for tt in range(total):
+        exp = Counter((tt, f"{e['id']}#g{e['gen']}") for e in plan
+                      if e['reg'] <= tt <= e['last'] and e['start'] <= tt <= e['end'] and (tt - e['start']) % e['freq'] == 0)
+        for name, lg in (('execute(n) run', log), ('single-step twin', tlog)):
+            got = Counter(x for x in lg if x[0] == tt)
+            ctx.ev()
+            if got != exp:
+                raise CaseViolation(f'{name}: executions at t={tt} differ from the window predicate (systems that retired themselves, identifiers '
+                                    f'taken over by new systems with other windows)', missing=sorted((exp - got).elements()),
+                                    extra=sorted((got - exp).elements()), plan=plan, chunks=chunks)
+        ctx.count('decisions_ran', sum(exp.values()))
+    ctx.count('retire_cases')
+    ctx.distinct(('retire', tuple((e['id'], e['gen'], e['start'], e['freq'], e['reg'], e['last'], e['how']) for e in plan), tuple(chunks)))
+    if case['i'] < 1:
+        ctx.sample({'kind': 'self-retiring systems', 'plan': plan[:6], 'chunks': chunks[:12]})
+
+
 def case_long(ctx, case):
     """Scale regime: long runs (1000-2000 timesteps), large frequencies, ends on and around powers of two, very long execute(n) calls,
     long stretches without any registry change - compared step by step with the window predicate and with a single-stepped twin."""
@@ -432,7 +519,7 @@ def case_box(ctx, case):
 
 
 def run_case(ctx, case):
-    {'script': case_script, 'warp': case_warp, 'box': case_box, 'spawn': case_spawn, 'long': case_long}[case['kind']](ctx, case)
+    {'script': case_script, 'warp': case_warp, 'box': case_box, 'spawn': case_spawn, 'long': case_long, 'retire': case_retire}[case['kind']](ctx, case)
 
 
 def run(ctx):
@@ -456,6 +543,9 @@ def run(ctx):
     for i in range(N_LONG[ctx.tier]):
         if ctx.mine(i) and not ctx.full():
             ctx.run_case({'kind': 'long', 'i': i}, run_case)
+    for i in range(N_SCRIPTS[ctx.tier] // 3):
+        if ctx.mine(i) and not ctx.full():
+            ctx.run_case({'kind': 'retire', 'i': i}, run_case)
     ctx.sample({'kind': 'box', 'starts': [b['starts'][0], b['starts'][-1]], 'ends_rel_start': [b['ends'][0], b['ends'][-1], 'forever'],
                 'freqs': [b['freqs'][0], b['freqs'][-1]], 'T': b['T']})
 
